@@ -11,6 +11,7 @@ Models: sender / forwarder byte layout `Nebula.RelaySend` (Model/RelaySend.lean)
 `Nebula.Outside.readOutside` (Model/Outside.lean). AEAD authenticity is a hypothesis (see C14).
 -/
 import Nebula.Model.RelaySend
+import Nebula.Model.ViaRemote
 import Nebula.Props.C14
 
 namespace Nebula.Props.C15
@@ -143,5 +144,113 @@ example : readOutside false (.mk { ver := 1, type := 1, sub := 1, idx := 50 }
       { host := some { id := 2, relayRec := some { type := 2, peer := 99 } }, authOK := true }
       (some (.mk { ver := 1, type := 1, sub := 0, idx := 9 } { host := some { id := 3 }, authOK := false } none)))
     = [.markIn 2, .relayUsed 50] := by decide
+
+
+-- ---------------------------------------------------------------------------------------------
+-- "whatever addresses the relay claims": the relay's underlay address is never recorded for the endpoint
+
+section ViaRemote
+open Nebula.ViaRemote Nebula.Net
+
+/-- **a relayed via never changes a hostinfo's remote** (`SetRemoteIfPreferred`): whatever the current
+remote (unset for relay-only tunnels, or a direct one), whatever `preferred_ranges` contains — even the
+relay's own underlay address — the hostinfo is returned unchanged and the result is `false`. Excludes the
+reviewer changes seeded/C15-1 (unset remote) and seeded/C15-2 (preferred-range comparison). -/
+theorem relayed_via_keeps_remote (pref : List Prefix) (h : HostR) (via : Via) (hr : via.isRelayed = true) :
+    setRemoteIfPreferred pref h via = (h, false) := by
+  unfold setRemoteIfPreferred; simp [hr]
+
+/-- the same for roaming and for handshake completion through a relay. -/
+theorem relayed_via_never_roams (allowed recent : Bool) (h : HostR) (via : Via) (hr : via.isRelayed = true) :
+    handleHostRoaming allowed recent h via = h := by
+  unfold handleHostRoaming; simp [hr]
+
+theorem relayed_completion_has_no_remote (via : Via) (hr : via.isRelayed = true) :
+    (completeHandshake via).remote = none := by
+  unfold completeHandshake; simp [hr]
+
+/-- whenever ANY of the three consumers changes / sets a remote, the via was direct and the new remote is
+exactly the address the datagram came from. -/
+theorem remote_changes_only_from_direct_via (pref : List Prefix) (allowed recent : Bool) (h : HostR) (via : Via) :
+    ((setRemoteIfPreferred pref h via).1.remote ≠ h.remote → via.isRelayed = false ∧ (setRemoteIfPreferred pref h via).1.remote = some via.udp) ∧
+    ((handleHostRoaming allowed recent h via).remote ≠ h.remote → via.isRelayed = false ∧ (handleHostRoaming allowed recent h via).remote = some via.udp) ∧
+    ((completeHandshake via).remote ≠ none → via.isRelayed = false ∧ (completeHandshake via).remote = some via.udp) := by
+  refine ⟨?_, ?_, ?_⟩
+  · intro hne
+    cases hr : via.isRelayed
+    · refine ⟨rfl, ?_⟩
+      unfold setRemoteIfPreferred at hne ⊢
+      simp only [hr] at hne ⊢
+      cases hrem : h.remote with
+      | none => simp
+      | some cur =>
+        simp only [hrem] at hne ⊢
+        cases hl : prefLoop cur.1 via.udp.1 pref false with
+        | none => simp [hl, hrem] at hne
+        | some b => cases b <;> simp [hl, hrem] at hne ⊢
+    · rw [relayed_via_keeps_remote pref h via hr] at hne; exact absurd rfl hne
+  · intro hne
+    cases hr : via.isRelayed
+    · refine ⟨rfl, ?_⟩
+      unfold handleHostRoaming at hne ⊢
+      simp only [hr] at hne ⊢
+      repeat' (split at hne)
+      all_goals first
+        | exact absurd rfl hne
+        | (repeat' split
+           all_goals first
+             | rfl
+             | (exfalso; simp_all))
+    · rw [relayed_via_never_roams allowed recent h via hr] at hne; exact absurd rfl hne
+  · intro hne
+    cases hr : via.isRelayed
+    · exact ⟨rfl, by unfold completeHandshake; simp [hr]⟩
+    · rw [relayed_completion_has_no_remote via hr] at hne; exact absurd rfl hne
+
+/-- **the preferred_ranges comparison is only for direct vias**: when `SetRemoteIfPreferred` moves a
+tunnel that already has a remote, the via was direct, its address lies in some preferred range, and the
+old remote lies in none of the ranges examined (so it is a genuine upgrade to a preferred path). -/
+theorem preferred_move_is_direct_upgrade (pref : List Prefix) (h : HostR) (via : Via) (cur : AddrPort)
+    (hc : h.remote = some cur) (hm : (setRemoteIfPreferred pref h via).2 = true) :
+    via.isRelayed = false ∧ prefLoop cur.1 via.udp.1 pref false = some true ∧
+      (setRemoteIfPreferred pref h via).1 = { remote := some via.udp, lastRoamRemote := some cur } := by
+  cases hr : via.isRelayed
+  · unfold setRemoteIfPreferred at hm ⊢
+    simp only [hr, hc] at hm ⊢
+    cases hl : prefLoop cur.1 via.udp.1 pref false with
+    | none => simp [hl] at hm
+    | some b => cases b <;> simp [hl] at hm ⊢
+  · rw [relayed_via_keeps_remote pref h via hr] at hm; exact Bool.noConfusion hm
+
+theorem prefLoop_true_means_in_range (cur new : Addr) (pref : List Prefix) :
+    ∀ acc, prefLoop cur new pref acc = some true → acc = true ∨ ∃ l ∈ pref, l.contains new = true := by
+  induction pref with
+  | nil => intro acc h; simp [prefLoop] at h; exact Or.inl h
+  | cons l ls ih =>
+    intro acc h
+    unfold prefLoop at h
+    split at h
+    · simp at h
+    · rcases ih _ h with h1 | ⟨l', hl', hc⟩
+      · cases hacc : acc
+        · simp [hacc] at h1; exact Or.inr ⟨l, List.mem_cons_self, h1⟩
+        · exact Or.inl rfl
+      · exact Or.inr ⟨l', List.mem_cons_of_mem _ hl', hc⟩
+
+-- non-vacuity: a direct duplicate from a preferred address does move the tunnel; the same packet through a
+-- relay whose underlay address is preferred does not (seed C15-2's scenario), nor does it give a relay-only
+-- tunnel a remote (seed C15-1's scenario)
+example :
+    let relayAddr : AddrPort := ({ fam := .v4, val := 0xc0000203 }, 4242)
+    let peerAddr : AddrPort := ({ fam := .v4, val := 0xc0000202 }, 4242)
+    let pref : List Prefix := [{ addr := { fam := .v4, val := 0xc0000203 }, len := 32 }]
+    setRemoteIfPreferred pref { remote := some peerAddr } { udp := relayAddr, isRelayed := false }
+        = ({ remote := some relayAddr, lastRoamRemote := some peerAddr }, true) ∧
+    setRemoteIfPreferred pref { remote := some peerAddr } { udp := relayAddr, isRelayed := true }
+        = ({ remote := some peerAddr }, false) ∧
+    setRemoteIfPreferred pref {} { udp := relayAddr, isRelayed := true } = ({}, false) := by
+  decide
+
+end ViaRemote
 
 end Nebula.Props.C15
